@@ -9,6 +9,7 @@ from .. import lang, vcrun, rx2smt as R
 from ..common import native, SEED
 from specs.build import B
 from specs import numerals
+from . import _b1
 
 LEVEL = "exploration"
 E = "pregex.meta.essentials."
@@ -63,6 +64,19 @@ def run(rep, tier):
     else:
         pairs = pairs + [(a, z) for a in range(0, 60) for z in range(a, 60)] + [(0, 2147483647), (10, 2147483647)] + \
             [tuple(sorted((rnd.randint(0, 10 ** 6), rnd.randint(0, 10 ** 6)))) for _ in range(300)]
+    # digit-pattern covering: __integer treats the bounds digit by digit, and what it emits at a position depends on whether the
+    # prefixes are still equal and on the kind of digit pair there - (0, 9), start digit below / above the end digit, equal
+    # digits.  Every combination of those kinds over three positions (four in the thorough tier), same digit count:
+    kinds0 = [(1, 9), (2, 7), (5, 5)]
+    kinds = [(0, 9), (2, 7), (7, 2), (5, 5)]
+    structural = []
+    for combo in itertools.product(kinds0, *([kinds] * (2 if tier == "quick" else 3))):
+        a = int("".join(str(d[0]) for d in combo))
+        z = int("".join(str(d[1]) for d in combo))
+        if a <= z and (a, z) not in structural:
+            structural.append((a, z))
+    structural += [(27, 1905), (905, 12095)]                     # different digit counts with a (0, 9) position inside
+    pairs = pairs + [p for p in structural if p not in pairs]
     cases = []
     for lo, hi in pairs:
         cases.append((f"Integer({lo}, {hi})", "Integer", lo, hi, False))
@@ -95,6 +109,9 @@ def run(rep, tier):
     rep.extra["translator_crosscheck"] = xc
     # argument validation of the template constructor, for ALL integers and every other argument kind (VCs)
     vcrun.run_functions(rep, [E + c + ".__init__" for c in ("__Integer", "Integer", "PositiveInteger", "NegativeInteger", "UnsignedInteger")], tier)
+    # the chain clauses above rest on the combinators' contracts, which assume the class invariant (contract of __infer_type):
+    # its stand-in runs here too (an affix / sign / format text that is mistyped breaks the composition)
+    _b1.run(rep, tier, ["category", "total"], "syntactic category of every emitted text (the meta patterns are compositions)")
     rep.trusted += ["R3, R4, R6, R7", "rx2smt translator (cross-checked against CPython each run)", "z3 regex theory and the "
                     "derivative-product procedure (must agree)", "specs/numerals.py (self-tested against brute force each run)"]
     rep.assumptions += ["digit runs glued to letters / underscore are not matched in the non-extensible form (documented "
